@@ -68,6 +68,28 @@ def real_groups(tier, seed):
                         calls.append('LAZYREAL_CASE(%s, %d, %d, "%s", %du, %s, %s);' % (t, n, op, nm, seed * 7 + n, lz, eg))
             groups.append({"key": "%s/%s" % (isa, t), "header": "lazy_real.h", "isa": isa, "opt": "-O2", "calls": calls,
                            "pre": "static bool g_verbose=false;"})
+            # rectangular chains: extents that make each association the cheapest (left-heavy, right-heavy, middle-heavy,
+            # vector-terminated), all assignment operators; scalar-valued lazy operators on expressions of 1..16 vectors
+            calls = []
+            shapes3 = [(5, 3, 4, 2), (2, 4, 3, 5), (3, 7, 2, 6), (6, 2, 7, 3), (4, 4, 4, 4), (9, 2, 2, 9), (2, 9, 9, 2), (1, 5, 6, 3), (7, 3, 5, 1)]
+            shapes4 = [(5, 3, 4, 2, 6), (2, 6, 3, 5, 2), (6, 2, 5, 2, 7), (3, 3, 3, 3, 3), (2, 7, 2, 7, 2)]
+            shapesv = [(5, 3, 4), (3, 8, 2), (9, 2, 7), (4, 4, 4)]
+            for sh in (rng.sample(shapes3, 4) if tier == "quick" else shapes3):
+                for op in (rng.sample([0, 1, 2, 3, 4], 3) if tier == "quick" else [0, 1, 2, 3, 4]):
+                    calls.append("run_chain3<%s,%d,%d,%d,%d,%d>(%du);" % ((t,) + sh + (op, rng.randint(1, 10 ** 6))))
+            for sh in (rng.sample(shapes4, 2) if tier == "quick" else shapes4):
+                for op in (rng.sample([0, 1, 2, 3], 2) if tier == "quick" else [0, 1, 2, 3]):
+                    calls.append("run_chain4<%s,%d,%d,%d,%d,%d,%d>(%du);" % ((t,) + sh + (op, rng.randint(1, 10 ** 6))))
+            for sh in (rng.sample(shapesv, 2) if tier == "quick" else shapesv):
+                for op in (rng.sample([0, 1, 2, 3], 2) if tier == "quick" else [0, 1, 2, 3]):
+                    calls.append("run_chainv<%s,%d,%d,%d,%d>(%du);" % ((t,) + sh + (op, rng.randint(1, 10 ** 6))))
+            sizes = [(1, 3), (2, 4), (3, 5), (4, 8), (8, 8), (8, 16), (12, 12), (16, 17), (5, 27)]
+            for (m, n) in (rng.sample(sizes[:4], 1) + sizes[4:7] + rng.sample(sizes[7:], 1) if tier == "quick" else sizes):
+                calls.append("run_scalar_lazy<%s,%d,%d>(%du);" % (t, m, n, rng.randint(1, 10 ** 6)))
+            for n in ([3, 8] if tier == "quick" else [1, 2, 3, 4, 5, 8, 9, 12, 16]):
+                calls.append("run_scalar_lazy_sq<%s,%d>(%du);" % (t, n, rng.randint(1, 10 ** 6)))
+            groups.append({"key": "%s/%s/chains" % (isa, t), "header": "lazy_real.h", "isa": isa, "opt": "-O2", "calls": calls,
+                           "pre": "static bool g_verbose=false;"})
     return groups
 
 def run(tier, seed):
